@@ -30,6 +30,8 @@ pub enum Mutation {
     /// relational boundary: word[b + k] := limit - word[b] + delta (words of `width` bytes; limit 2^(8*width) or 0x1000),
     /// i.e. a base placed so that base + length ends exactly at / one off the wrap point or the config-space end
     SumEdge { b: u16, k: i8, width: u8, limit: u8, delta: i8 },
+    /// add a small delta to one aligned word of the body (alignment / off-by-few rules: ring addresses 16/2/4, sizes, indexes)
+    WordAdd { idx: u16, width: u8, delta: i8 },
 }
 
 #[derive(Serialize, Deserialize, Debug, Clone, Hash, PartialEq, Eq)]
@@ -80,6 +82,17 @@ impl ChunkSpec {
                 body.truncate(n);
             }
             Mutation::ExtendFramed(x) => body.extend_from_slice(x),
+            Mutation::WordAdd { idx, width, delta } => {
+                let w = if *width == 4 { 4usize } else { 8 };
+                let n = body.len() / w;
+                if n >= 1 {
+                    let i = (*idx as usize * n) >> 16;
+                    let mut x = [0u8; 8];
+                    x[..w].copy_from_slice(&body[i * w..i * w + w]);
+                    let v = u64::from_ne_bytes(x).wrapping_add(*delta as i64 as u64);
+                    body[i * w..i * w + w].copy_from_slice(&v.to_ne_bytes()[..w]);
+                }
+            }
             Mutation::SumEdge { b, k, width, limit, delta } => {
                 let w = if *width == 4 { 4usize } else { 8 };
                 let n = body.len() / w;
@@ -125,6 +138,8 @@ pub fn mutation_strategy() -> impl Strategy<Value = Mutation> {
         1 => any::<u16>().prop_map(Mutation::TruncateFramed),
         1 => any::<u16>().prop_map(Mutation::TruncateRaw),
         1 => proptest::collection::vec(any::<u8>(), 1..40).prop_map(Mutation::ExtendFramed),
+        3 => (any::<u16>(), prop_oneof![3 => Just(8u8), 1 => Just(4u8)], prop_oneof![Just(1i8), Just(2), Just(3), Just(4), Just(6), Just(8), Just(10), Just(12), Just(14), Just(-1), Just(-2), Just(-4)])
+            .prop_map(|(idx, width, delta)| Mutation::WordAdd { idx, width, delta }),
         3 => (any::<u16>(), prop_oneof![Just(-1i8), Just(1), Just(2)], prop_oneof![3 => Just(8u8), 1 => Just(4u8)], prop_oneof![3 => Just(0u8), 1 => Just(1u8)], -1i8..=1)
             .prop_map(|(b, k, width, limit, delta)| Mutation::SumEdge { b, k, width, limit, delta }),
     ]
